@@ -11,7 +11,9 @@ use std::net::{IpAddr, Ipv4Addr, Ipv6Addr, SocketAddr, SocketAddrV4, SocketAddrV
 
 pub fn gen_fam(c: &mut Choices) -> FamId {
     // k256 most often (shrinks towards it), every family represented
-    const W: [FamId; 13] = [
+    const W: [FamId; 15] = [
+        FamId::Nano,
+        FamId::Big,
         FamId::Mid,
         FamId::Tiny,
         FamId::Wide,
@@ -31,7 +33,7 @@ pub fn gen_fam(c: &mut Choices) -> FamId {
 
 pub fn gen_keys(c: &mut Choices, fam: FamId) -> Vec<Secret> {
     let n = 1 + c.below(3);
-    if matches!(fam, FamId::Tiny | FamId::Mid) {
+    if fam.is_toy() {
         return (0..n).map(|_| Secret(c.arr32())).collect::<Vec<_>>().into_iter().enumerate().map(|(i, mut s)| { s.0[0] ^= i as u8; s }).collect();
     }
     if fam == FamId::Wide {
@@ -136,7 +138,7 @@ fn well_typed_tval(c: &mut Choices, key: &[u8], fam: FamId) -> Option<TVal> {
             let s = *c.pick(pool().of(Scheme::Secp));
             let pk = crypto::secp_pk_from_secret(&s).unwrap();
             match c.below(5) {
-                0 => {
+                0 | 1 => {
                     // 65-byte SEC1 forms of a valid point: uncompressed (04) and hybrid (06 / 07)
                     let u = crypto::secp_uncompressed(&pk).unwrap();
                     let tag = *c.pick(&[4u8, 4, 6, 7, if u[63] & 1 == 1 { 7 } else { 6 }]);
@@ -444,6 +446,55 @@ pub fn gen_init(c: &mut Choices, fam: FamId, secret: &[u8; 32]) -> Init {
     }
 }
 
+/// Two- and three-call CombinedKey histories in which the second key belongs to the OTHER scheme:
+/// one update signed by the other-scheme key (k = 1), then every alphabet operation signed by the
+/// record's original key (k = 0), optionally followed by set_seq with the original key.
+pub fn cross_sequences(quick: bool) -> Vec<History> {
+    let mut out = Vec::new();
+    for fam in [FamId::CombinedSecp, FamId::CombinedEd] {
+        let own = pool().of(fam.scheme());
+        let keys = vec![Secret(own[own.len() - 1]), Secret(pool().secp[4 % pool().secp.len()])];
+        let firsts = [Op::SetPort { which: PortKey::Udp, port: 1, k: 1 }, Op::SetSeq { seq: 5, k: 1 }, Op::Insert { key: b"x".to_vec(), val: TVal::U8(1), k: 1 }];
+        for (i, first) in firsts.iter().enumerate() {
+            if quick && i > 0 {
+                break;
+            }
+            for second in alphabet(fam) {
+                let mut second = second;
+                set_signer(&mut second, 0);
+                let mut ops = vec![first.clone(), second.clone()];
+                out.push(History { fam, keys: keys.clone(), init: Init::Builder { calls: vec![] }, ops: ops.clone(), fault_at: None, alt_keys: vec![1] });
+                if !quick {
+                    ops.push(Op::SetSeq { seq: 900, k: 0 });
+                    out.push(History { fam, keys: keys.clone(), init: Init::Builder { calls: vec![] }, ops, fault_at: None, alt_keys: vec![1] });
+                }
+            }
+        }
+    }
+    out
+}
+
+fn set_signer(op: &mut Op, to: usize) {
+    match op {
+        Op::SetSeq { k, .. }
+        | Op::Insert { k, .. }
+        | Op::InsertRaw { k, .. }
+        | Op::SetIp { k, .. }
+        | Op::SetPort { k, .. }
+        | Op::RemovePort { k, .. }
+        | Op::SetClientInfo { k, .. }
+        | Op::SetSocket { k, .. }
+        | Op::RemoveSocket { k, .. }
+        | Op::RemoveKey { k, .. }
+        | Op::RemoveInsert { k, .. } => *k = to,
+        Op::SetPublicKey { k, pk_of } => {
+            *k = to;
+            *pk_of = to;
+        }
+        _ => {}
+    }
+}
+
 /// A history that may sign with the other CombinedKey variant (cross-scheme signer).
 pub fn gen_history_cross(c: &mut Choices) -> History {
     let mut h = gen_history(c, None);
@@ -565,6 +616,17 @@ pub fn alphabet(fam: FamId) -> Vec<Op> {
         a.push(Op::Insert { key: b"ed25519".to_vec(), val: TVal::Bytes(vec![5; 32]), k: 0 });
     } else {
         a.push(Op::Insert { key: b"secp256k1".to_vec(), val: TVal::Bytes(vec![2; 33]), k: 0 });
+        // a valid point in the 65-byte SEC1 hybrid form (libsecp256k1 parses it, k256 does not) and in the
+        // uncompressed form
+        let pk = crypto::secp_pk_from_secret(&pool().secp[1]).unwrap();
+        let u = crypto::secp_uncompressed(&pk).unwrap();
+        let mut hybrid = vec![if u[63] & 1 == 1 { 7u8 } else { 6 }];
+        hybrid.extend_from_slice(&u);
+        a.push(Op::Insert { key: b"secp256k1".to_vec(), val: TVal::Bytes(hybrid.clone()), k: 0 });
+        a.push(Op::InsertRaw { key: b"secp256k1".to_vec(), raw: rlp::encode_str(&hybrid), k: 0 });
+        let mut unc = vec![4u8];
+        unc.extend_from_slice(&u);
+        a.push(Op::Insert { key: b"secp256k1".to_vec(), val: TVal::Bytes(unc), k: 0 });
     }
     a
 }
@@ -596,6 +658,12 @@ pub fn exhaustive_keys(fam: FamId) -> Vec<Secret> {
     let p = pool().of(fam.scheme());
     // a random-looking key and an edge scalar
     vec![Secret(p[p.len() - 1]), Secret(p[3 % p.len()])]
+}
+
+/// depth-1 enumeration (every alphabet operation from every initial record) for every family not in `done`
+pub fn depth1_rest(done: &[FamId]) -> impl Iterator<Item = History> + Send {
+    let done = done.to_vec();
+    ALL_FAMS.into_iter().filter(move |f| !done.contains(f)).flat_map(|f| exhaustive(f, 1))
 }
 
 /// all op sequences of length <= depth over the alphabet, from every initial record
